@@ -50,6 +50,18 @@ def _case(draw):
         # the very same callback registered a second time with identical options
         j = draw(st.integers(0, len(ws) - 1))
         ws.append(dict(ws[j], dup_of=j))
+    if draw(st.integers(0, 1)) == 0:
+        # one callback unwatches a watcher (itself, more often than not, or another one) the first time it runs
+        k = draw(st.integers(0, len(ws) - 1))
+        if ws[k].get("dup_of") is None and ws[k]["what"] == "value":
+            ws[k]["unwatch_on_call"] = draw(st.sampled_from([k, k, draw(st.integers(0, len(ws) - 1))]))
+            if draw(st.booleans()):
+                # ... and a sibling registered right after it on the same parameter with the same precedence
+                ws.insert(k + 1, dict(ws[k], script=[], unwatch_on_call=None, dup_of=None))
+                for w in ws:
+                    for key in ("unwatch_on_call", "dup_of"):
+                        if w.get(key) is not None and w[key] > k and w is not ws[k]:
+                            w[key] += 1
     ops = draw(st.lists(_ops(fam), min_size=1, max_size=10))
     return {"fam": fam, "watchers": ws, "ops": [list(o) for o in ops]}
 
@@ -91,6 +103,7 @@ class Model:
         self.trace = []
         self.queued_scripted_ran = False
         self.labels = set()
+        self.unwatched_in_cb = {}
 
     def value(self, t, n):
         if t == 2:
@@ -142,6 +155,15 @@ class Model:
             rec = list(events)
         a = sp.get("dup_of") if sp.get("dup_of") is not None else w     # a duplicate registration shares the callback
         self.trace.append(("enter", a, rec, self.snapshot(t)))
+        uw = sp.get("unwatch_on_call")
+        if uw is not None and not self.unwatched_in_cb.get(w) and uw < len(self.specs) and self.active[uw] \
+                and self.specs[uw].get("dup_of") is None and not any(x.get("dup_of") == uw for x in self.specs):
+            # removed while the event is in flight: the watchers registered when the assignment was made are still
+            # called for it (the dispatch works on the list as it was), later assignments no longer reach it
+            self.unwatched_in_cb[w] = True
+            self.trace.append(("unwatch", w, uw))
+            self.active[uw] = False
+            self.labels.add("unwatch_inside_callback")
         if sp["script"]:
             self.labels.add("cascade")
             if sp["queued"]:
@@ -184,6 +206,8 @@ def _same(a, b):
         return a[1] == b[1] and a[2] == b[2] and a[3] is b[3] and a[4] == b[4]
     if a[0] == "exit":
         return a[1] == b[1]
+    if a[0] == "unwatch":
+        return a[1:] == b[1:]
     if a[0] == "enter":
         if a[1] != b[1] or len(a[2]) != len(b[2]):
             return False
@@ -206,6 +230,8 @@ def _fmt(tr):
             out.append(f"assign(t{e[1]}.{e[2]}={e[3]!r}{' by w%d' % e[4] if e[4] is not None else ''})")
         elif e[0] == "enter":
             out.append(f"enter(w{e[1]} {[(n, o, v, t) for n, o, v, t in e[2]]!r} sees {e[3]!r})")
+        elif e[0] == "unwatch":
+            out.append(f"w{e[1]} unwatches w{e[2]}")
         else:
             out.append(f"{e[0]}(w{e[1]})")
     return " ; ".join(out)
